@@ -124,6 +124,16 @@ def build_env(spec, holder):
     return envs[0]
 
 
+def build_env_with_sibling(spec, holder):
+    """The environment of the spec plus a SIBLING that branches off after the spec's first cache()/chunk(): both pipelines share the filter
+    objects up to and including that cache (what `base = envs.chunk(); a = base.noise(); b = base.take(m)` gives a user)."""
+    k = spec["sibling"]["after"]
+    base = apply_ops(build_source(spec["src"], holder), spec["ops"][:k + 1], holder)
+    env = apply_ops(base, spec["ops"][k + 1:], holder)[0]
+    sib = base.take(spec["sibling"]["take"])[0] if spec["sibling"]["take"] is not None else base[0]
+    return env, sib
+
+
 # ----------------------------------------------------------------------------- canonical form of interactions
 def canon_val(v, depth=0):
     from coba.primitives import Dense, Sparse
@@ -382,7 +392,18 @@ class C04:
 
     def gen(self, rng, tier, index):
         src = gen_src(rng)
-        return {"src": src, "ops": gen_ops(rng, src, faults=True), "history": gen_history(rng)}
+        cfg = {"src": src, "ops": gen_ops(rng, src, faults=True), "history": gen_history(rng)}
+        caches = [i for i, o in enumerate(cfg["ops"]) if o[0] in ("cache", "chunk")]
+        if caches and caches[0] < len(cfg["ops"]) - 1 and rng.random() < 0.5 and "interrupt_at" not in cfg["src"][1]:
+            # (not together with the Ctrl-C fault of the source: when the sibling's read is the one that is interrupted, the first later read
+            #  of this environment fails - loudly, once - because the reader its outer cache had parked was reading the interrupted source)
+            # a second pipeline that shares the first cache with this one is read in between (completely, or a few items and dropped)
+            cfg["sibling"] = {"after": caches[0], "take": weighted(rng, [(None, 1), (rng.choice([1, 10, 30, 60]), 2)])}
+            for _ in range(1 + rng.randrange(3)):
+                cfg["history"].insert(rng.randrange(len(cfg["history"]) + 1), ["sibling", {"k": weighted(rng, [(None, 2), (rng.choice([1, 5, 26]), 1)])}])
+            if not any(h[0] == "cache" for h in cfg["history"]) and len(caches) < 2:
+                cfg["history"].insert(0, ["cache", {}])        # (an outer cache parks a reader of the inner one)
+        return cfg
 
     # ------------------------------------------------------------------
     def run(self, cfg, seed, choices=None):
@@ -395,7 +416,11 @@ class C04:
         K.TRANSIENT_FIRED.clear()
         try:
             K.INTERRUPTS_ENABLED = False
-            twin = build_env(cfg, {})
+            if cfg.get("sibling"):
+                twin, twin_sib = build_env_with_sibling(cfg, {})
+                list(twin_sib.read())          # (the sibling shares the source object: what the source learns by being read - n_actions - shows in both)
+            else:
+                twin = build_env(cfg, {})
             R = [canon(i) for i in twin.read()]
             P = canon_val(dict(twin.params))
             K.INTERRUPTS_ENABLED = True
@@ -428,7 +453,16 @@ class C04:
         tmp = None
         vios = {}
         try:
-            env = build_env(cfg, holder)
+            sib = R_sib = None
+            if cfg.get("sibling"):
+                K.INTERRUPTS_ENABLED = False
+                try:
+                    R_sib = [canon(i) for i in build_env_with_sibling(cfg, {})[1].read()]
+                finally:
+                    K.INTERRUPTS_ENABLED = True
+                env, sib = build_env_with_sibling(cfg, holder)
+            else:
+                env = build_env(cfg, holder)
             before = snapshot_inputs(holder)
             pending = []       # (iterator, close-at-step)
             live = [env]
@@ -460,7 +494,7 @@ class C04:
                             got = None
                         finally:
                             fired, n_ins = asyncexc.disarm()
-                            gc.enable()
+                            pass  # (the runner keeps the cyclic collector off for the whole run: sim/runner.py _fresh)
                         if fired is not None:
                             out["counters"]["fault.ctrl_c_between_bytecodes"] = out["counters"].get("fault.ctrl_c_between_bytecodes", 0) + 1
                             out["counters"][f"reach.ctrl_c_in.{fired[0]}"] = out["counters"].get(f"reach.ctrl_c_in.{fired[0]}", 0) + 1
@@ -502,9 +536,23 @@ class C04:
                             pending.append((it, None))
                         if len(got) > 0:
                             read_objs.add(id(e))
+                    elif op == "sibling":
+                        if sib is not None:
+                            out["counters"]["reach.sibling_sharing_a_cache_read"] = out["counters"].get("reach.sibling_sharing_a_cache_read", 0) + 1
+                            it = iter(sib.read())
+                            got = []
+                            for _ in range(a["k"] if a["k"] is not None else 10 ** 9):
+                                try:
+                                    got.append(canon(next(it)))
+                                except StopIteration:
+                                    break
+                            del it
+                            self._cmp(got, R_sib[:len(got)] if a["k"] is not None else R_sib, label, vios, cfg, partial=a["k"] is not None)
                     elif op == "params":
                         p = canon_val(dict(e.params))
-                        if id(e) in read_objs and p != P:
+                        # (with a sibling that shares the source object, what "has been read" means for the source is no longer a matter of
+                        #  this object's own history: the params clause is checked in the runs without a sibling)
+                        if id(e) in read_objs and p != P and not cfg.get("sibling"):
                             vios.setdefault("params", vio("params_changed", f"{label}: params {dict(e.params)!r} differ from the twin's {dict(twin.params)!r}", key="params_changed"))
                     elif op == "pickle":
                         try:
@@ -595,11 +643,18 @@ class C04:
         vios.setdefault(cls, vio(cls, f"{label}: {what}", key=cls))
 
     def shrink(self, cfg):
+        if cfg.get("sibling") and not any(h[0] == "sibling" for h in cfg["history"]):
+            c = copy.deepcopy(cfg); del c["sibling"]; yield c
         for i in range(len(cfg["history"]) - 1, -1, -1):
             if len(cfg["history"]) > 1:
                 c = copy.deepcopy(cfg); del c["history"][i]; yield c
         for i in range(len(cfg["ops"]) - 1, -1, -1):
-            c = copy.deepcopy(cfg); del c["ops"][i]; yield c
+            if cfg.get("sibling") and i == cfg["sibling"]["after"]:
+                continue
+            c = copy.deepcopy(cfg); del c["ops"][i]
+            if c.get("sibling") and i < c["sibling"]["after"]:
+                c["sibling"]["after"] -= 1
+            yield c
         for i, (op, a) in enumerate(cfg["history"]):
             if a.get("look"):
                 c = copy.deepcopy(cfg); del c["history"][i][1]["look"]; yield c
